@@ -156,14 +156,15 @@ def evenFill {n} (T : AMat Int n) (mx k szcl : Nat) (ds : List Nat) : Except Err
     else if !isPermOfRange (ds.take m) m then .error .badDraw
     else .ok (writeOnes P (choose free (ds.take m) remK), ds.drop m)
 
-/-- `makeevenCIJ(n, k, sz_cl)` for n a power of two, n ≥ 4 (`mx = mx_lvl = log2 n`; for mx_lvl = 1 the
-Python loop body never runs and `CIJ` is unbound — outside the domain, `.param` here) -/
+/-- `makeevenCIJ(n, k, sz_cl)` for n = 2^mx (`mx = mx_lvl = floor(log2 n)`; the code shrinks any other n to 2^mx with a
+warning — the driver does the same before calling this).  mx_lvl = 1 (n = 2): the template is the initial `t`
+(`CIJ = t.copy()` before the loop; without it `CIJ` is unbound — former finding C20-hier-template-mx1).
+mx_lvl = 0 (n = 1): `s` and `CIJ` are never bound in any version — `.param`, outside the property. -/
 def evenCIJ (n mx k szcl : Nat) (ds : List Nat) : Except Err (AMat Int n × List Nat) :=
   match mx with
   | 0 => .error .param
   | m + 1 =>
-    if hn : n = 2 ^ (m + 1) then
-      if m = 0 then .error .param else evenFill (hierTemplate hn) (m + 1) k szcl ds
+    if hn : n = 2 ^ (m + 1) then evenFill (hierTemplate hn) (m + 1) k szcl ds
     else .error .param
 
 /-! ### thresholds: a float is an exact dyadic rational `num / den`, a uniform draw is `v · 2^-53` -/
@@ -211,10 +212,15 @@ def fractalEE {n} (T : AMat Int n) (mx szcl : Nat) (i j : Fin n) : Int :=
 
 def thrEq (a b : Thr) : Bool := a.1 * b.2 == b.1 * a.2
 
-/-- the observed probability matrix `prob = (1 / E**ee) * (ones - eye)` must be what the code's structure
-dictates: 0 on the diagonal, 1 where `ee = 0`, and a function of `ee` elsewhere (the float powers
-`1 / E**ee` themselves are not modelled) -/
-def probConsistent {n} (T : AMat Int n) (mx szcl : Nat) (prob : AMat Thr n) : Bool :=
+/-- `|a/b − 1/E^e| ≤ 1e-12` exactly -/
+def nearInvPow (t : Thr) (E e : Nat) : Bool :=
+  let d : Int := Int.ofNat (t.1 * E ^ e) - Int.ofNat t.2
+  decide (d.natAbs * 10 ^ 12 ≤ t.2 * E ^ e)
+
+/-- the observed probability matrix must be `prob = (1 / E**ee) * (ones - eye)` for the model's own `ee`:
+0 on the diagonal, exactly 1 where `ee = 0`, within 1e-12 of the rational `1/E^ee` elsewhere (the code's doubles
+`1/E**ee`; exact when E is a power of two) and one and the same double on all cells with equal `ee` -/
+def probConsistent {n} (T : AMat Int n) (mx szcl E : Nat) (prob : AMat Thr n) : Bool :=
   let fr := List.finRange n
   let off : List (Cell n) := fr.flatMap fun i => (fr.filter (· ≠ i)).map fun j => (i, j)
   -- one representative probability per value of `ee`
@@ -225,18 +231,20 @@ def probConsistent {n} (T : AMat Int n) (mx szcl : Nat) (prob : AMat Thr n) : Bo
   (off.all fun c =>
     let e := fractalEE T mx szcl c.1 c.2
     (prob.get c.1 c.2).2 != 0 && (if e == 0 then thrEq (prob.get c.1 c.2) (1, 1) else true) &&
+    nearInvPow (prob.get c.1 c.2) E e.toNat &&
     match reps.find? (·.1 == e) with
     | some r => thrEq r.2 (prob.get c.1 c.2)
     | none => false)
 
-/-- `makefractalCIJ(mx_lvl, E, sz_cl)` → `(CIJ, k)`; `prob` is the observed float matrix -/
-def fractalCIJ (n mx szcl : Nat) (prob : AMat Thr n) (ds : List Nat) : Except Err (AMat Int n × Int × List Nat) :=
+/-- `makefractalCIJ(mx_lvl, E, sz_cl)` → `(CIJ, k)` for a positive integer E; `prob` is the observed float matrix,
+accepted only if it is the matrix `1/E**ee` the code must have computed -/
+def fractalCIJ (n mx szcl E : Nat) (prob : AMat Thr n) (ds : List Nat) : Except Err (AMat Int n × Int × List Nat) :=
   match mx with
   | 0 => .error .param
   | m + 1 =>
     if hn : n = 2 ^ (m + 1) then
-      if m = 0 then .error .param
-      else if !probConsistent (hierTemplate hn) (m + 1) szcl prob then .error .badDraw
+      if E = 0 then .error .param
+      else if !probConsistent (hierTemplate hn) (m + 1) szcl E prob then .error .badDraw
       else if ds.length < n * n then .error .outOfDraws
       else
         let C := sampleLt prob (ds.take (n * n)).toArray
@@ -338,7 +346,12 @@ def step (line : String) : String :=
     else if op == "makeevenCIJ" then
       let mx ← (← lookup kv "mx").toNat?
       let szcl ← (← lookup kv "szcl").toNat?
-      some (out (evenCIJ n mx k szcl ds))
+      -- `mx_lvl = floor(log2 n)`; `n = 2**mx_lvl` (the code shrinks a non-power-of-two n, printing a warning)
+      if n = 0 ∨ ¬ (2 ^ mx ≤ n ∧ n < 2 ^ (mx + 1)) then none
+      else
+        match evenCIJ (2 ^ mx) mx k szcl ds with
+        | .error e => some s!"error={e.str}"
+        | .ok (C, rest) => some s!"C={showMat C} left={rest.length}"
     else if op == "maketoeplitzCIJ" then
       let prof ← parseThrs (← lookup kv "prof")
       some (out (toeplitzCIJ n k prof ds))
@@ -350,7 +363,8 @@ def step (line : String) : String :=
       else
         let pa := pr.toArray
         let prob : AMat Thr n := AMat.ofFn fun i j => pa[i.val * n + j.val]!
-        match fractalCIJ n mx szcl prob ds with
+        let E ← (← lookup kv "E").toNat?
+        match fractalCIJ n mx szcl E prob ds with
         | .error e => some s!"error={e.str}"
         | .ok (C, kk, rest) => some s!"C={showMat C} k={kk} left={rest.length}"
     else if op == "makerandCIJdegreesfixed" then
